@@ -41,12 +41,14 @@ R.contract(f'{FU}.result', self_type='Fut', params={}, returns='Res',
     frame=[])
 
 R.contract('labtech.runners.process:split_done_futures',
-    params={'futures': 'List[Fut]'}, returns='Tuple[List[Fut],List[Fut]]',
+    params={'futures': 'UList[Fut]'}, returns='Tuple[UList[Fut],UList[Fut]]',
+    locals={'done_futures': 'UList[Fut]', 'not_done_futures': 'UList[Fut]'},
     ensures=["forall('Fut', lambda f: (f in result[0]) == ((f in futures) and f.done))",
              "forall('Fut', lambda f: (f in result[1]) == ((f in futures) and (not f.done)))"],
     frame=[],
     cand_locals=('done_futures', 'not_done_futures'),
     candidates=["forall('Fut', lambda f: (f in done_futures) == ((f in __done__) and f.done))",
+                "subset(done_futures, __done__) and subset(not_done_futures, __done__)",
                 "forall('Fut', lambda f: (f in not_done_futures) == ((f in __done__) and (not f.done)))"])
 
 # ---- the executor
@@ -202,8 +204,8 @@ R.contract(f'{PE}._consume_result_queue',
     ])
 
 R.contract(f'{PE}.wait',
-    self_type='Obj[ProcessExecutor]', params={'futures': 'List[Fut]', 'timeout_seconds': 'Opt[Int]'},
-    returns='Tuple[List[Fut],List[Fut]]',
+    self_type='Obj[ProcessExecutor]', params={'futures': 'UList[Fut]', 'timeout_seconds': 'Opt[Int]'},
+    returns='Tuple[UList[Fut],UList[Fut]]',
     requires=['INV(self)'],
     ensures=['INV(self)',
              C("empty(PEND(self)) or (card(dom(RUN(self))) >= self.max_workers)", 'rest: queue empty or workers full', serves=('C05', 'C11')),
